@@ -126,6 +126,46 @@ func rpcHeight(run *ev.Run, n *vrpc.Node, bc *core.Blockchain, hh uint32, obs *v
 				return &viol{"rpc:findstoragehistoric-differs-from-live", fmt.Sprintf("height %d contract %d (%s) by-id=%v: %s", hh, ct.id, ct.hash.StringLE(), byID, d)}
 			}
 		}
+		// the same with prefixes cut from the stored keys (1 and 2 bytes, a whole
+		// shorter key): the answer is the matching part of the live content
+		{
+			seen := map[string]bool{}
+			var pfxs [][]byte
+			for _, kv := range kvs {
+				for _, n := range []int{1, 2, len(kv.K) - 1, len(kv.K) - 2} {
+					if n >= 1 && n <= len(kv.K) && !seen[string(kv.K[:n])] && len(pfxs) < 6 {
+						seen[string(kv.K[:n])] = true
+						pfxs = append(pfxs, kv.K[:n])
+					}
+				}
+			}
+			for _, pfx := range pfxs {
+				var want, got []vchain.KV
+				for _, kv := range kvs {
+					if bytes.HasPrefix(kv.K, pfx) {
+						want = append(want, kv)
+					}
+				}
+				start := 0
+				for guard := 0; guard < 100; guard++ {
+					fs, err := c.FindStorageByHashHistoric(root, ct.hash, pfx, &start)
+					if err != nil {
+						return &viol{"rpc:findstoragehistoric-fails", fmt.Sprintf("height %d contract %d prefix %x start %d: %v", hh, ct.id, pfx, start, err)}
+					}
+					for _, kv := range fs.Results {
+						got = append(got, vchain.KV{K: kv.Key, V: kv.Value})
+					}
+					if !fs.Truncated {
+						break
+					}
+					start = fs.Next
+				}
+				run.Obs("rpc_prefixed_historic_searches", 1)
+				if d := diffKVs(got, want); d != "" {
+					return &viol{"rpc:findstoragehistoric-with-prefix-differs-from-live", fmt.Sprintf("height %d contract %d (%s) prefix %x: %s", hh, ct.id, ct.hash.StringLE(), pfx, d)}
+				}
+			}
+		}
 		{
 			var got []vchain.KV
 			var start []byte
